@@ -157,7 +157,9 @@ fn main() {
                     "local_map" => "key=8 value=24 cap=200 type=9",
                     _ => "",
                 };
-                if p[2..].join(" ") != want {
+                // only the layout (key and value size) is contract between the kernel program and the agent; type and
+                // capacity are the kernel program's own business and are judged by what the model does with them
+                if p[2..4].join(" ") != want.split(' ').take(2).collect::<Vec<_>>().join(" ") {
                     res.violation(&format!("map-declaration:{}", p[1]), &format!("C declares {} as {}; the agent side uses {}", p[1], p[2..].join(" "), want), json!({"map": p[1]}));
                 }
                 round_trips += 1;
